@@ -97,6 +97,11 @@ func (calc *Calculator) ComputeFlows() *journal.Processor {
 					continue
 				}
 
+				if calc.CommodityFilter != nil && !calc.CommodityFilter(p.Commodity) {
+					// not a portfolio commodity - not part of the values either.
+					continue
+				}
+
 				if calc.isPortfolioAccount(p.Other) {
 					// transfer between portfolio accounts - no performance impact.
 					continue
